@@ -559,3 +559,12 @@ P_ORDER_EXACT = Q("order_p36_exact_alloc", "c16_order.c", defs={"PLMAX": 36, "EX
                   bounds="as order_p36, with every message allocated with exactly the room msg_allocator_alloc() gives its payload size: the comparison never reads outside a message buffer")
 SPECS["C16"]["queries"] += [P_ORDER_EXACT]
 SPECS["C11"]["queries"] += [P_ORDER_EXACT]
+
+P_INITORDER = Q("worker_init_fini_order", "c15_init.c", unwind=3, timeout=300,
+                bounds="real worker_thread_init / worker_thread_fini of parallel.c with recording stubs and counted barriers, any thread id")
+SPECS["C15"]["queries"] += [P_INITORDER]
+SPECS["C15"]["encodes"] += ["parallel/parallel.c:worker_thread_init", "worker_thread_fini"]
+SPECS["C01"]["queries"] += [P_INITORDER, SPECS["C07"]["queries"][0]]   # a run that ends early ends on a non-sequential state
+SPECS["C05"]["queries"] += [q for q in SPECS["C09"]["queries"] if q["name"] in ("replay_normal_k1", "replay_random", "replay_gamma_k1")]   # the random stream after a rollback
+
+SPECS["C02"]["queries"] += [P_STEP1[4], P_STEP1[1]]   # extracted anti-messages are reported to the GVT module too (their rollbacks send remote anti-messages)
